@@ -288,6 +288,8 @@ class Session:
             it = o.select(*[decode_weights(x) for x in a["prios"]], solver=self._solver(a.get("solver")),
                           **({"only_leafs": a["only_leafs"]} if "only_leafs" in a else {}))
             return self._finish_iter(op, it)
+        if m == "dump":
+            return {"v": C.canon(o)}
         if m == "construct":
             return {"v": C.canon(o.construct(decode_weights(a["d"])))}
         raise OpError(f"unknown method {m}")
